@@ -332,8 +332,13 @@ Proof.
 Qed.
 End GetK.
 
-Lemma do_get_K : forall G s rid step key from to play force,
-  G < rid -> KInv G s -> KInv rid (fst (do_get CS s rid step key from to play force)).
+Definition ev_good (G : Z) (R : req -> Prop) (e : event) : Prop := exists r, e = ev_of r /\ req_ok G r /\ R r.
+
+Lemma do_get_K2 : forall G s rid step key from to play force,
+  G < rid -> KInv G s ->
+  KInv rid (fst (do_get CS s rid step key from to play force)) /\
+  forall e, In e (snd (do_get CS s rid step key from to play force)) ->
+    ev_good rid (fun r => In r (reqs s) \/ (r_id r = rid /\ r_step r = step /\ r_key r = key)) e.
 Proof.
   intros G s rid step key from to play force HG [K1 K2].
   assert (Hle : forall r, In r (reqs s) -> r_id r <= G) by (intros r Hr; apply (K2 r Hr)).
@@ -360,11 +365,15 @@ Proof.
     split; [exact Hold | apply keyed_repeat]. }
   destruct Ha as [J1 J2].
   set (rnew := mkReq rid step key _ (ia_data a) _ _ _ false _ _ _ false).
-  destruct (finish_reqs (reqs s ++ [rnew])) as [rs evs] eqn:Ef. cbn [fst].
+  destruct (finish_reqs (reqs s ++ [rnew])) as [rs evs] eqn:Ef. cbn [fst snd].
   assert (Hrs : forall r, In r rs -> In r (reqs s) \/ r = rnew).
-  { intros r Hr. unfold finish_reqs in Ef. injection Ef as <- _. apply filter_In in Hr. destruct Hr as [Hr _].
+  { intros r Hr. pose proof Ef as Ef1. unfold finish_reqs in Ef1. injection Ef1 as <- _. apply filter_In in Hr. destruct Hr as [Hr _].
     apply in_app_or in Hr. destruct Hr as [Hr|[<-|[]]]; auto. }
-  eapply KInv_sub; [apply signal_if_sub|].
+  assert (Hevs : forall e, In e evs -> exists r, (In r (reqs s) \/ r = rnew) /\ e = ev_of r).
+  { intros e He. pose proof Ef as Ef1. unfold finish_reqs in Ef1. injection Ef1 as _ <-. apply in_map_iff in He. destruct He as [r [E Hr]].
+    apply filter_In in Hr. destruct Hr as [Hr _]. exists r. split; [|auto]. apply in_app_or in Hr. destruct Hr as [Hr|[<-|[]]]; auto. }
+  split.
+  { eapply KInv_sub; [apply signal_if_sub|].
   split.
   - intros [[sp k] c] Hin. unfold entries in Hin. cbn [bks limbo set_core] in Hin.
     assert (HR : forall r, In r rs -> R' rid step key s r).
@@ -382,7 +391,15 @@ Proof.
   - cbn [reqs set_core]. intros r Hr. destruct (Hrs r Hr) as [Hr'| ->].
     + destruct (K2 r Hr') as [A B]. split; [assumption | lia].
     + split; [exact J2 | cbn; lia].
+  }
+  intros e He. destruct (Hevs e He) as [r [[Hr| ->] ->]]; exists r + exists rnew.
+  - split; [reflexivity|]. destruct (K2 r Hr) as [A B]. split; [split; [assumption | lia] | left; assumption].
+  - split; [reflexivity|]. split; [split; [exact J2 | cbn; lia] | right; cbn; auto].
 Qed.
+
+Lemma do_get_K : forall G s rid step key from to play force,
+  G < rid -> KInv G s -> KInv rid (fst (do_get CS s rid step key from to play force)).
+Proof. intros G s rid step key from to play force H H0. exact (proj1 (do_get_K2 G s rid step key from to play force H H0)). Qed.
 
 (* ---- LoadDone ---- *)
 Definition iks (rs rs' : list req) : Prop :=
@@ -483,38 +500,66 @@ Proof.
   - eapply entry_ok_iks; [exact F2 | apply K1; apply in_or_app; right; assumption].
 Qed.
 
-Lemma do_loaddone_K : forall G s l ok, KInv G s -> KInv G (fst (do_loaddone CS COL ROW s l ok)).
+Lemma deliver_iks : forall ok cd rs a, iks rs (deliver ok cd rs a).
+Proof.
+  intros ok cd rs a r' Hr'. unfold deliver in Hr'. apply in_map_iff in Hr'. destruct Hr' as [r [E Hr]]. exists r. split; [assumption|].
+  destruct (r_id r =? a_req a); subst r'; cbn; auto.
+Qed.
+Lemma fold_deliver_iks : forall ok cd aws rs, iks rs (fold_left (deliver ok cd) aws rs).
+Proof. induction aws as [|a aws IH]; intros rs; simpl; [apply iks_refl | eapply iks_trans; [apply deliver_iks | apply IH]]. Qed.
+Lemma post_chunk_iks : forall ok r n x v, iks (reqs x) (reqs (post_chunk CS COL ROW ok r n x v)).
+Proof.
+  intros ok r n x [id pos]. unfold post_chunk, post_limbo.
+  destruct (find_bucket (r_step r) (r_key r) (bks x)) as [b|].
+  - destruct (take_by_id id (b_chunks b)) as [c|]; [cbn [reqs set_core]; apply fold_deliver_iks|].
+    destruct (take_limbo (r_step r) (r_key r) id (limbo x)); [cbn [reqs set_core]; apply fold_deliver_iks | apply iks_refl].
+  - destruct (take_limbo (r_step r) (r_key r) id (limbo x)); [cbn [reqs set_core]; apply fold_deliver_iks | apply iks_refl].
+Qed.
+Lemma fold_post_chunk_iks : forall ok r n vs x, iks (reqs x) (reqs (fold_left (post_chunk CS COL ROW ok r n) vs x)).
+Proof. induction vs as [|v vs IH]; intros x; simpl; [apply iks_refl | eapply iks_trans; [apply post_chunk_iks | apply IH]]. Qed.
+
+Lemma do_loaddone_K2 : forall G s l ok, KInv G s ->
+  KInv G (fst (do_loaddone CS COL ROW s l ok)) /\
+  forall e, In e (snd (do_loaddone CS COL ROW s l ok)) ->
+    ev_good G (fun r' => exists r, In r (reqs s) /\ r_id r' = r_id r /\ r_step r' = r_step r /\ r_key r' = r_key r) e.
 Proof.
   intros G s l ok [K1 K2]. unfold do_loaddone.
-  destruct (filter (fun r => r_load r =? l) (reqs s)) as [|r0 rest] eqn:Ef; [split; assumption|].
+  destruct (filter (fun r => r_load r =? l) (reqs s)) as [|r0 rest] eqn:Ef; [split; [split; assumption | intros e []]|].
   assert (H0 : In r0 (reqs s)) by (assert (In r0 (filter (fun r => r_load r =? l) (reqs s))) by (rewrite Ef; left; reflexivity); apply filter_In in H; apply H).
-  destruct (r_chunks r0) as [|[i0 p0] vs] eqn:Ev; [split; assumption|].
+  destruct (r_chunks r0) as [|[i0 p0] vs] eqn:Ev; [split; [split; assumption | intros e []]|].
   destruct (K2 r0 H0) as [R1 R2].
   match goal with |- context [post_chunk CS COL ROW ok ?rr ?nn] => set (r1 := rr) in *; set (n1 := nn) in * end.
   assert (Hr1 : keyed (r_step r1) (r_key r1) (r_data r1)).
   { subst r1. cbn [r_step r_key r_data]. destruct ok; [apply keyed_write; [assumption | apply keyed_load_cells] | assumption]. }
   assert (Hid1 : r_id r1 = r_id r0 /\ r_step r1 = r_step r0 /\ r_key r1 = r_key r0) by (subst r1; cbn; auto).
   match goal with |- context [fold_left (post_chunk CS COL ROW ok r1 n1) ?vv ?ss] => set (s1 := ss) in *; set (vs1 := vv) in * end.
+  assert (Hi : iks (reqs s) (reqs s1)).
+  { intros r' Hr'. cbn [s1 reqs set_core] in Hr'. apply in_map_iff in Hr'. destruct Hr' as [r [E Hr]].
+    destruct (r_id r =? r_id r0) eqn:Eid; [|subst r'; exists r; auto].
+    subst r'. exists r0. split; [assumption | apply Hid1]. }
   assert (Ks1 : KInv G s1).
-  { assert (Hi : iks (reqs s) (reqs s1)).
-    { intros r' Hr'. cbn [s1 reqs set_core] in Hr'. apply in_map_iff in Hr'. destruct Hr' as [r [E Hr]].
-      destruct (r_id r =? r_id r0) eqn:Eid; [|subst r'; exists r; auto].
-      subst r'. exists r0. split; [assumption | apply Hid1]. }
-    split.
+  { split.
     - intros e He. eapply entry_ok_iks; [exact Hi | apply K1; exact He].
     - intros r' Hr'. cbn [s1 reqs set_core] in Hr'. apply in_map_iff in Hr'. destruct Hr' as [r [E Hr]].
       destruct (r_id r =? r_id r0); [subst r'; split; [exact Hr1 | destruct Hid1 as [-> _]; exact R2] | subst r'; apply K2; assumption]. }
   assert (Kf : forall vs0 x, KInv G x -> KInv G (fold_left (post_chunk CS COL ROW ok r1 n1) vs0 x)).
   { induction vs0 as [|v vs0 IH]; intros x Kx; simpl; [assumption | apply IH, post_chunk_K; assumption]. }
-  specialize (Kf vs1 s1 Ks1). set (s2 := fold_left _ vs1 s1) in *.
-  destruct (finish_reqs (reqs s2)) as [rs evs] eqn:Efin. cbn [fst].
-  eapply KInv_sub; [apply signal_if_sub|]. destruct Kf as [F1 F2].
+  specialize (Kf vs1 s1 Ks1). pose proof (fold_post_chunk_iks ok r1 n1 vs1 s1) as Hi2. set (s2 := fold_left _ vs1 s1) in *.
+  destruct (finish_reqs (reqs s2)) as [rs evs] eqn:Efin. cbn [fst snd]. destruct Kf as [F1 F2].
+  split.
+  2:{ intros e He. unfold finish_reqs in Efin. injection Efin as _ <-. apply in_map_iff in He. destruct He as [r [E Hr]].
+      apply filter_In in Hr. destruct Hr as [Hr _]. exists r. split; [auto|]. split; [apply F2; assumption|].
+      apply (iks_trans _ _ _ Hi Hi2 r Hr). }
+  eapply KInv_sub; [apply signal_if_sub|].
   assert (Hsub : forall r, In r rs -> In r (reqs s2)) by (intros r Hr; unfold finish_reqs in Efin; injection Efin as <- _; apply filter_In in Hr; apply Hr).
   split; cbn [reqs set_core].
   - intros [[sp k] c] He. eapply entry_ok_weaken; [apply Z.le_refl | | left; reflexivity | apply incl_refl | apply (F1 _ He)].
     intros r Hr _. apply Hsub. assumption.
   - intros r Hr. apply F2, Hsub. assumption.
 Qed.
+
+Lemma do_loaddone_K : forall G s l ok, KInv G s -> KInv G (fst (do_loaddone CS COL ROW s l ok)).
+Proof. intros G s l ok H. exact (proj1 (do_loaddone_K2 G s l ok H)). Qed.
 
 (* ---- every step, every history ---- *)
 Definition rid_ok (G : Z) (o : op) : Prop := match o with Get rid _ _ _ _ _ _ => G < rid | _ => True end.
